@@ -294,5 +294,105 @@ func sameSP(a, b *rules.SlashingProtection) bool {
 	return a.HighestProposedSlot == b.HighestProposedSlot && a.HighestAttestedSourceEpoch == b.HighestAttestedSourceEpoch && a.HighestAttestedTargetEpoch == b.HighestAttestedTargetEpoch
 }
 
-// c05Wire is filled in by the daemon rig (wire slice); see wire.go.
-var c05Wire = func(run *evid.Run, cfg Cfg) {}
+// c05Wire is the wire slice: the real daemon with server.rules.admin-ips set, the client binding different
+// loopback source addresses so that the real SourceIP interceptor supplies the address.
+func c05Wire(run *evid.Run, cfg Cfg) {
+	r := cfg.Rand("c05-wire")
+	w, err := NewWireRig(cfg, "c05-wire", 12, []string{"127.0.0.2", "127.0.0.5"})
+	if err != nil {
+		run.Inconclusive("cannot start daemon for the wire slice: " + err.Error())
+		return
+	}
+	defer w.Close()
+	env := NewWireEnv(run, w)
+	if !env.WireKeys(12) {
+		run.Inconclusive("no wire accounts")
+		return
+	}
+	epoch := uint64(10)
+	for _, src := range []string{"127.0.0.1", "127.0.0.2", "127.0.0.3", "127.0.0.5", "127.0.0.25"} {
+		if err := w.Dial(src); err != nil {
+			run.Inconclusive("cannot dial from " + src + ": " + err.Error())
+			return
+		}
+		listed := src == "127.0.0.2" || src == "127.0.0.5"
+		for k := 0; k < cfg.N(40, 400); k++ {
+			dc := domClasses[r.Intn(len(domClasses))]
+			if r.Intn(3) == 0 {
+				dc = domClasses[4] // voluntary exit: the class whose verdict depends on the source address
+			}
+			dom := randDomain(r, dc.prefix)
+			isAtt, isProp, isExit := bytes.Equal(dom[:4], DomainAttester), bytes.Equal(dom[:4], DomainProposer), bytes.Equal(dom[:4], DomainExit)
+			ki := r.Intn(12)
+			run.Eval(1)
+			cell := func(ep, out string) string { return fmt.Sprintf("wire %s dom=%s src-listed=%v -> %s", ep, dc.name, listed, out) }
+			switch r.Intn(4) {
+			case 0:
+				c := wfGen(r, env, ki)
+				c.Data.Domain = dom
+				res, sig := env.SignGen(ViaWire, c)
+				run.Distinct(cell("generic", res.String()))
+				if len(sig) > 0 && (isAtt || isProp) {
+					run.Violate(fmt.Sprintf("wire: generic endpoint signed under slashable domain type %x", dom[:4]), cell("generic", "signed"))
+				}
+				if len(sig) > 0 && isExit && !listed {
+					run.Violate(fmt.Sprintf("wire: voluntary exit signed for a request from %s, admin list is [127.0.0.2 127.0.0.5]", src), cell("generic", "signed"))
+				}
+				if len(sig) > 0 && isExit && listed {
+					run.Count("wire_exit_signed_from_admin_ip", 1)
+				}
+				if len(sig) == 0 && isExit && !listed {
+					run.Count("wire_exit_refused", 1)
+				}
+			case 1:
+				cs := []*GenCase{wfGen(r, env, ki), wfGen(r, env, (ki+1)%12)}
+				cs[1].Data.Domain = dom
+				res, sigs := env.SignGens(ViaWire, cs)
+				if len(res) == 2 {
+					run.Distinct(cell("multi", res[1].String()))
+					if len(sigs) == 2 && len(sigs[1]) > 0 && (isAtt || isProp || (isExit && !listed)) {
+						run.Violate(fmt.Sprintf("wire: multisign signed position 1 under domain type %x from %s", dom[:4], src), cell("multi", "signed"))
+					}
+				}
+			case 2:
+				epoch += 2
+				c := wfAtt(r, env, ki)
+				c.Data.Domain = dom
+				c.Data.Source.Epoch, c.Data.Target.Epoch = epoch, epoch+1
+				res, sig := env.SignAtt(ViaWire, c)
+				run.Distinct(cell("att", res.String()))
+				if !isAtt && (res == core.ResultSucceeded || len(sig) > 0) {
+					run.Violate(fmt.Sprintf("wire: attestation endpoint signed under domain type %x", dom[:4]), cell("att", "signed"))
+				}
+				if isAtt && res == core.ResultSucceeded {
+					run.Count("wire_protected_endpoint_signed_own_domain", 1)
+				}
+			default:
+				epoch += 2
+				c := wfProp(r, env, ki)
+				c.Data.Domain = dom
+				c.Data.Slot = epoch
+				res, sig := env.SignProp(ViaWire, c)
+				run.Distinct(cell("prop", res.String()))
+				if !isProp && (res == core.ResultSucceeded || len(sig) > 0) {
+					run.Violate(fmt.Sprintf("wire: proposal endpoint signed under domain type %x", dom[:4]), cell("prop", "signed"))
+				}
+				if isProp && res == core.ResultSucceeded {
+					run.Count("wire_protected_endpoint_signed_own_domain", 1)
+				}
+			}
+		}
+	}
+	// A positive control so that "never signed an exit" cannot be vacuous.
+	for try := 0; try < 20 && run.Get("wire_exit_signed_from_admin_ip") == 0; try++ {
+		_ = w.Dial("127.0.0.2")
+		c := wfGen(r, env, try%12)
+		c.Data.Domain = randDomain(r, DomainExit)
+		if _, sig := env.SignGen(ViaWire, c); len(sig) > 0 {
+			run.Count("wire_exit_signed_from_admin_ip", 1)
+		}
+	}
+	if run.Get("wire_exit_signed_from_admin_ip") == 0 || run.Get("wire_exit_refused") == 0 {
+		run.Inconclusive("wire slice never saw an exit signed from an administrator address and one refused from elsewhere")
+	}
+}
